@@ -27,7 +27,13 @@ func Run(m *mon.M) {
 	m.Require("pairs.shared_edge", 200)
 	m.Require("pairs.big_index", 100)
 	maxN := m.N(700, 10000)
-	m.Stream("pairs", m.N(12000, 400000), func(c *mon.Case) { pairCase(c, maxN) })
+	m.Stream("pairs", m.N(12000, 400000), func(c *mon.Case) {
+		n := maxN // thorough: up to 10^4 vertices in one case out of twelve, 1200 otherwise
+		if n > 1200 && c.I%12 != 0 {
+			n = 1200
+		}
+		pairCase(c, n)
+	})
 	m.Stream("cells", m.N(3000, 100000), cellPairs)
 	m.Stream("polygons", m.N(2000, 100000), polygonPairs)
 	m.Require("touching.checked", 5000)
